@@ -1312,6 +1312,9 @@ func (self *_Assembler) _asm_OP_bin(_ *_Instr) {
 	self.slice_from(_VAR_st_Iv, -1)                 // SLICE  st.Iv, $-1
 	self.WriteRecNotAX(20, _DI, jit.Ptr(_VP, 0), false, false) // MOVQ DI, (VP)
 	self.Emit("MOVQ", _SI, jit.Ptr(_VP, 8))         // MOVQ   SI, 8(VP)
+	/* round the quantum count up: the decoder also writes the bytes of a trailing group of
+	 * fewer than 4 characters (lengths that are not a multiple of 4 are not rejected) */
+	self.Emit("ADDQ", jit.Imm(3), _SI)              // ADDQ   $3, SI
 	self.Emit("SHRQ", jit.Imm(2), _SI)              // SHRQ   $2, SI
 	self.Emit("LEAQ", jit.Sib(_SI, _SI, 2, 0), _SI) // LEAQ   (SI)(SI*2), SI
 	self.Emit("MOVQ", _SI, jit.Ptr(_VP, 16))        // MOVQ   SI, 16(VP)
